@@ -32,6 +32,7 @@ sys.path.insert(0, os.path.dirname(os.path.dirname(os.path.abspath(__file__))))
 
 from simkit import clock, driver, fork  # noqa: E402
 from simkit.driver import bump, new_result, shrink_list  # noqa: E402
+from simkit.fs import SimFS  # noqa: E402
 from simkit.loop import SimDeadlock, SimLoop  # noqa: E402
 from simkit.rng import Rng, digest  # noqa: E402
 from simkit.threads import SimThreads  # noqa: E402
@@ -120,9 +121,26 @@ def guest_tree(spec):
     return nodes
 
 
-def build_env_c11(spec, delims, loader_sources):
+def fresh_shared_style_loader(mode, sources, keep):
+    """A loader of the kind the run shares between its environments, built afresh (nothing shared)."""
+    if mode == "shared_choice":
+        # a plain (non-caching) choice loader only moves source text, so ONE instance may serve several
+        # environments - even when its delegates are caching loaders, whose caches it never consults
+        return liquid.ChoiceLoader([liquid.CachingDictLoader(dict(sources)), LatencyDictLoader(dict(sources))])
+    fs = SimFS()
+    keep.append(fs)
+    for nm, src in sources.items():
+        fs.write("tpl/" + nm, src, 1)
+    fs.mkdir("tpl")
+    # every environment calls the documented factory itself, with equal arguments
+    return liquid.make_file_system_loader(fs.path("tpl"), ext="")
+
+
+def build_env_c11(spec, delims, loader_sources, loader=None, keep=None):
     """Environment for a C11 recipe incl. the mutations applied so far."""
-    env = G.build_env(spec["recipe"], LatencyDictLoader(dict(loader_sources)), delims)
+    if loader is None and spec.get("loader_mode"):
+        loader = fresh_shared_style_loader(spec["loader_mode"], spec["shared_sources"], keep if keep is not None else [])
+    env = G.build_env(spec["recipe"], loader or LatencyDictLoader(dict(loader_sources)), delims)
     apply_custom(env, spec["label"], spec["custom"])
     for m in spec["mutations"]:
         apply_mutation(env, spec["label"], m)
@@ -213,8 +231,15 @@ def evaluate_probe(probe):
         canon = norm(outcome(lambda: liquid.Template(probe["canon_source"], **probe["canon_kwargs"]).render(**data)))
         return [custom, canon]
     spec = probe["spec"]
-    env = build_env_c11(spec, probe["delims"], sources_for(spec, probe["delims"]))
-    custom = probe_outcome(env, probe["source"], probe["data"], probe["what"])
+    keep = []
+    try:
+        env = build_env_c11(spec, probe["delims"], sources_for(spec, probe["delims"]), keep=keep)
+        custom = probe_outcome(env, probe["source"], probe["data"], probe["what"])
+    finally:
+        for fs in keep:
+            fs.close()
+    if probe.get("canon_source") is None:
+        return [custom, custom]       # no delimiter-equivalence side for this probe
     cspec = dict(spec)
     env2 = build_env_c11(cspec, G.DEFAULT_DELIMS, sources_for(spec, G.DEFAULT_DELIMS))
     canon = probe_outcome(env2, probe["canon_source"], probe["data"], probe["what"])
@@ -304,7 +329,8 @@ class C11:
     REQUIRED_REACH = ["reach.order_variation_compared", "reach.pristine_compared", "reach.equal_hash_envs_alive", "reach.flood_rolled_parser_cache", "reach.parse_after_mutation",
                       "reach.interleaved_envs", "reach.implicit", "reach.custom_delims", "reach.dropped_env",
                       "reach.regex_meta_delims", "reach.letter_delims", "reach.thread_switch_inside_op",
-                      "reach.async_batch", "reach.embedded_guest", "fault.env_construction_failed"]
+                      "reach.async_batch", "reach.embedded_guest", "fault.env_construction_failed",
+                      "reach.cross_parse", "reach.shared_loader", "reach.factory_loader_equal_args"]
 
     def process_init(self):
         fork.init_zygote(evaluate_probe)
@@ -388,7 +414,8 @@ class C11:
         for _ in range(nops):
             uid += 1
             k = rng.weighted([("new_env", 3), ("parse", 3), ("render", 8), ("mutate", 2), ("drop", 1), ("implicit", 1),
-                              ("flood", 0.6), ("async_batch", 1.5), ("failed_env", 0.8), ("embed", 1.2)])
+                              ("flood", 0.6), ("async_batch", 1.5), ("failed_env", 0.8), ("embed", 1.2),
+                              ("cross_parse", 1.2)])
             op = {"op": k, "uid": uid, "spec": rng.randrange(len(specs))}
             if k in ("parse", "render"):
                 op["tree"] = rng.randrange(len(trees))
@@ -413,8 +440,20 @@ class C11:
                 op["fail_at"] = rng.randint(1, 24)     # the add_tag call of the constructor that raises
             elif k == "embed":
                 op["guest"] = rng.randrange(len(specs))
+            elif k == "cross_parse":
+                # source text written for environment src_spec, handed to environment spec as it is
+                # (identical text seen by two configurations, e.g. differing only in comment markers)
+                same = [j for j, s2 in enumerate(specs) if j != op["spec"] and all(
+                    delim_sets[s2["delims"]][q] == delim_sets[specs[op["spec"]]["delims"]][q] for q in ("ts", "te", "os", "oe"))]
+                op["src_spec"] = rng.choice(same) if same and rng.chance(0.8) else rng.randrange(len(specs))
+                op["tree"] = rng.randrange(len(trees))
+                op["data"] = rng.randrange(len(datas))
             ops.append(op)
-        sc = {"specs": specs, "delim_sets": delim_sets, "trees": trees, "datas": datas, "ops": ops}
+        sc = {"specs": specs, "delim_sets": delim_sets, "trees": trees, "datas": datas, "ops": ops,
+              # how the environments of this run get their loader: each its own (None), ONE shared plain
+              # choice loader over caching delegates, or each its own call of make_file_system_loader()
+              # with equal arguments; the partials then exist once, written in specs[0]'s delimiters
+              "loader_mode": rng.weighted([(None, 7), ("shared_choice", 1.5), ("fsfactory", 1.5)])}
         if rng.chance(0.3):
             # the same operations from 2-3 threads, each with its own environments
             sc.update(threads=rng.randint(2, 3), switch_p=rng.choice([0.02, 0.1, 0.3]),
@@ -480,15 +519,41 @@ class C11:
         def delims_of(i):
             return sc["delim_sets"][sc["specs"][i]["delims"]]
 
+        lmode = sc.get("loader_mode")
+        shared_sources = sources_for(sc["specs"][0], sc["delim_sets"][sc["specs"][0]["delims"]]) if lmode else None
+        keep_fs = []
+        shared_loader = [None]
+        if lmode == "fsfactory":
+            fsd = SimFS()
+            keep_fs.append(fsd)
+            fsd.mkdir("tpl")
+            for nm, src in shared_sources.items():
+                fsd.write("tpl/" + nm, src, 1)
+
+        def loader_for_env():
+            if lmode == "shared_choice":
+                if shared_loader[0] is None:
+                    shared_loader[0] = fresh_shared_style_loader("shared_choice", shared_sources, keep_fs)
+                bump(st, "reach.shared_loader")
+                return shared_loader[0]
+            if lmode == "fsfactory":
+                bump(st, "reach.factory_loader_equal_args")
+                return liquid.make_file_system_loader(keep_fs[0].path("tpl"), ext="")
+            return None
+
         def cur_spec(i):
             s = sc["specs"][i]
-            return {"label": s["label"], "recipe": s["recipe"], "custom": s["custom"], "partials": s["partials"],
-                    "mutations": list(live[i][1]) if i in live else []}
+            out = {"label": s["label"], "recipe": s["recipe"], "custom": s["custom"], "partials": s["partials"],
+                   "mutations": list(live[i][1]) if i in live else []}
+            if lmode:
+                out["loader_mode"] = lmode
+                out["shared_sources"] = shared_sources
+            return out
 
         def ensure(i):
             if i not in live:
                 spec = {**cur_spec(i), "mutations": []}
-                env = build_env_c11(spec, delims_of(i), sources_for(spec, delims_of(i)))
+                env = build_env_c11(spec, delims_of(i), sources_for(spec, delims_of(i)), loader=loader_for_env())
                 live[i] = (env, [])
                 d = delims_of(i)
                 if d != G.DEFAULT_DELIMS:
@@ -595,6 +660,23 @@ class C11:
                         add("independence", "embedding:%s" % ("output" if emb[0] == "ok" else emb[1]),
                             {"op": op, "guest_alone": _brief(alone), "embedded_in_host": _brief(emb),
                              "guest_source": gsrc, "host_source": hsrc})
+            elif k == "cross_parse":
+                env = ensure(i)
+                note(i)
+                si = op["src_spec"]
+                ri = sc["specs"][si]["recipe"]
+                src = G.render_source(tree_for(sc["trees"][op["tree"]], ri), with_lc(delims_of(si), ri))
+                dspec = sc["datas"][op["data"]]
+                got = probe_outcome(env, src, dspec, "render")
+                spec = cur_spec(i)
+                d = delims_of(i)
+                key = digest(("x", spec, d, src, dspec))
+                probe = {"kind": "probe", "spec": spec, "delims": d, "source": src, "canon_source": None,
+                         "data": dspec, "what": "render"}
+                bump(st, "reach.cross_parse")
+                history.append([op["uid"], "cross", i, si, got[0], got[1] if got[0] == "err" else digest(got[1])])
+                res["probes"].append({"uid": op["uid"], "op": op, "kind": "render", "key": key, "probe": probe,
+                                      "got": got, "delims": d})
             elif k == "async_batch":
                 if nthreads:
                     return        # one event loop per run; not from simulated threads
@@ -639,8 +721,8 @@ class C11:
                     spec = cur_spec(ii)
                     csrc = G.render_source(tr, G.DEFAULT_DELIMS)
                     key = digest(("p", spec, d, src, dspec, "render"))
-                    probe = {"kind": "probe", "spec": spec, "delims": d, "source": src, "canon_source": csrc,
-                             "data": dspec, "what": "render"}
+                    probe = {"kind": "probe", "spec": spec, "delims": d, "source": src,
+                             "canon_source": None if lmode else csrc, "data": dspec, "what": "render"}
                     history.append([it["uid"], "async", ii, got[0], got[1] if got[0] == "err" else digest(got[1])])
                     res["probes"].append({"uid": it["uid"], "op": {**op, "item": it}, "kind": "render", "key": key,
                                           "probe": probe, "got": got, "delims": d})
@@ -657,20 +739,24 @@ class C11:
                 got = probe_outcome(env, src, dspec, k)
                 spec = cur_spec(i)
                 key = digest(("p", spec, d, src, dspec, k))
-                probe = {"kind": "probe", "spec": spec, "delims": d, "source": src, "canon_source": csrc,
-                         "data": dspec, "what": k}
+                probe = {"kind": "probe", "spec": spec, "delims": d, "source": src,
+                         "canon_source": None if lmode else csrc, "data": dspec, "what": k}
                 history.append([op["uid"], k, i, got[0], got[1] if got[0] == "err" else digest(got[1])])
                 res["probes"].append({"uid": op["uid"], "op": op, "kind": k, "key": key, "probe": probe, "got": got,
                                       "delims": d})
 
         nthreads = sc.get("threads") or 0
-        if not nthreads:
-            for op in sc["ops"]:
-                exec_op(op)
-                if viol:
-                    break
-        else:
-            self._run_threads(sc, res, exec_op, history)
+        try:
+            if not nthreads:
+                for op in sc["ops"]:
+                    exec_op(op)
+                    if viol:
+                        break
+            else:
+                self._run_threads(sc, res, exec_op, history)
+        finally:
+            for f in keep_fs:
+                f.close()
         res["steps"] = res.get("steps") or len(history)
         res["isig"] = res.get("isig") or digest([(h[0], h[1]) for h in history])
         res["digest"] = digest((history, res.get("isig")))
@@ -749,7 +835,8 @@ class C11:
         """Drop specs, delimiter sets, trees and data no operation refers to (re-indexing)."""
         ops = sc["ops"]
         items = [it for op in ops for it in op.get("items", [])]
-        us = sorted({op["spec"] for op in ops} | {op["guest"] for op in ops if "guest" in op} | {it["spec"] for it in items})
+        us = sorted({op["spec"] for op in ops} | {op["guest"] for op in ops if "guest" in op} | {it["spec"] for it in items}
+                    | {op["src_spec"] for op in ops if "src_spec" in op} | ({0} if sc.get("loader_mode") else set()))
         ut = sorted({op["tree"] for op in ops if "tree" in op} | {it["tree"] for it in items})
         ud = sorted({op["data"] for op in ops if "data" in op} | {it["data"] for it in items})
         udl = sorted({sc["specs"][i]["delims"] for i in us})
@@ -764,6 +851,8 @@ class C11:
                 op["data"] = dm[op["data"]]
             if "guest" in op:
                 op["guest"] = sm[op["guest"]]
+            if "src_spec" in op:
+                op["src_spec"] = sm[op["src_spec"]]
             if "items" in op:
                 op["items"] = [{**it, "spec": sm[it["spec"]], "tree": tm[it["tree"]], "data": dm[it["data"]]}
                                for it in op["items"]]
@@ -775,6 +864,8 @@ class C11:
     def shrink(self, sc):
         for cand in shrink_list(sc["ops"]):
             yield {**sc, "ops": cand}
+        if sc.get("loader_mode"):
+            yield {**sc, "loader_mode": None}
         if sc.get("threads"):
             yield {k: v for k, v in sc.items() if k not in ("threads", "switch_p", "tsched_seed")}
             if sc["threads"] > 2:
